@@ -497,3 +497,26 @@ B("b4-const-offset-old-frame-length", "C16", "R16.3", (CL, "            result =
   "            result = np.full(self._intermediate_data.size, self.call.args[0].value, dtype=float)"))
 B("b4-const-trials-wrong-argument", "C16", "R16.3", (CL, "            result = np.ones(len(data_mask.index)) * self.call.args[1].value",
   "            result = np.full(len(data_mask.index), self.call.args[0].value, dtype=float)"))
+
+# ------------------------------------------------------------------ surface syntax: match statements and assignment expressions (sa/desugar.py)
+_RB_OLD = ('        otype = expr.operator.kind\n        if otype == "TILDE":\n            return Response(expr.left.accept(self)) + expr.right.accept(self)\n'
+           '        if otype == "PLUS":\n            return expr.left.accept(self) + expr.right.accept(self)\n        elif otype == "MINUS":\n'
+           '            return expr.left.accept(self) - expr.right.accept(self)\n        elif otype == "STAR_STAR":\n            return expr.left.accept(self) ** expr.right.accept(self)\n'
+           '        elif otype == "COLON":\n            # there is not __colon__ method\n            return expr.left.accept(self) @ expr.right.accept(self)\n'
+           '        elif otype == "STAR":\n            return expr.left.accept(self) * expr.right.accept(self)\n        elif otype == "SLASH":\n'
+           '            return expr.left.accept(self) / expr.right.accept(self)\n        elif otype == "PIPE":\n            return expr.left.accept(self) | expr.right.accept(self)\n'
+           '        else:  # pragma: no cover\n            raise ResolverError("Couldn\'t resolve BinaryExpr with otype \'" + otype + "\'")\n')
+def _rb(colon="@", star="*"):
+    return ('        match expr.operator.kind:\n            case "TILDE":\n                return Response(expr.left.accept(self)) + expr.right.accept(self)\n'
+            '            case "PLUS":\n                return expr.left.accept(self) + expr.right.accept(self)\n            case "MINUS":\n'
+            '                return expr.left.accept(self) - expr.right.accept(self)\n            case "STAR_STAR":\n                return expr.left.accept(self) ** expr.right.accept(self)\n'
+            '            case "COLON":\n                return expr.left.accept(self) ' + colon + ' expr.right.accept(self)\n'
+            '            case "STAR":\n                return expr.left.accept(self) ' + star + ' expr.right.accept(self)\n            case "SLASH":\n'
+            '                return expr.left.accept(self) / expr.right.accept(self)\n            case "PIPE":\n                return expr.left.accept(self) | expr.right.accept(self)\n'
+            '            case otype:\n                raise ResolverError("Couldn\'t resolve BinaryExpr with otype \'" + otype + "\'")\n')
+S("syntax-benign-match-resolver", ["C02", "C01"], (RS, _RB_OLD, _rb()))
+B("syntax-match-resolver-colon-star-swapped", "C02", "R2.3", (RS, _RB_OLD, _rb(colon="*", star="@")))
+S("syntax-benign-match-config", ["C10"], (VR, '        if config["EVAL_UNSEEN_CATEGORIES"] == "error":\n            difference = [str(x) for x in difference]\n            raise ValueError(',
+  '        match config["EVAL_UNSEEN_CATEGORIES"]:\n            case "error":\n                difference = [str(x) for x in difference]\n                raise ValueError('),
+  note="only the first line of the branch is re-indented: does not compile -> skipped")
+VARIANTS.pop()
